@@ -1,7 +1,8 @@
 (* C04 — a confirmed request ends in exactly one outcome, in bounded time, no residue.
    Property theorems only; the model is Bac.Ssm (ClientSSM / ServerSSM transcribed from appservice.py with the
    fix: commits of known_findings/C04.json applied), proofs in Bac.SsmC04a / Bac.SsmC04 / Bac.SsmC05. *)
-From Bac Require Import Base PyRt Ssm SsmFacts SsmC04a SsmC04 SsmC04t SsmC04s SsmC05 SsmWorld.
+From Bac Require Import Base PyRt Ssm SsmFacts SsmC04a SsmC04 SsmC04t SsmC04s SsmC04w SsmC04h SsmC05 SsmWorld.
+From Bac Require Iocb IocbFacts.
 Open Scope Z_scope.
 
 (* over any sequence of inbound frames and time-outs, in any order and at any instants, a client transaction hands
@@ -54,6 +55,42 @@ Theorem C04_budget_nonneg : forall s, cnt_ok s -> 0 <= budget s.
 Proof. exact budget_nonneg. Qed.
 Print Assumptions C04_budget_nonneg.
 
+(* bounded time, composed.  A scheduled history (`valid_run`): instants do not go back, a frame is handled no later than the
+   armed deadline, a time-out exactly at it, no handler raises, nothing is handled after removal.  With K = n_rx evs frames
+   received there are at most budget + K*retries + 1 time-outs, and every event — in particular the one that delivers the
+   outcome — happens within (budget + K*(retries+1) + 1) * max(apduTimeout, segmentTimeout) of the start.  `_partial`:
+   K is a parameter of the history (the network decides how many frames arrive), not bounded by the theorem. *)
+Theorem C04_outcome_within_partial : forall evs s ctr t0, c_ready s -> cnt_ok s ->
+  (forall w c, s_timer s = Some (w, c) -> w <= t0 + Tmax s) ->
+  valid_run evs s ctr t0 ->
+  n_to evs <= budget s + n_rx evs * s_retries s + 1 /\
+  last_time evs t0 <= t0 + (budget s + n_rx evs * (s_retries s + 1) + 1) * Tmax s.
+Proof.
+  intros evs s ctr t0 Hr Hc Hd Hv. split.
+  - exact (proj1 (run_bound evs s ctr t0 Hr Hc Hd Hv)).
+  - exact (outcome_within evs s ctr t0 Hr Hc Hd Hv).
+Qed.
+Print Assumptions C04_outcome_within_partial.
+
+(* for a request just submitted the budget is retries^2 + 3*retries + 1 (19 time-outs for the default 3 retries) *)
+Theorem C04_fresh_budget : forall s, s_retry s = 0 -> s_segretry s = 0 -> budget s = s_retries s * s_retries s + 3 * s_retries s + 1.
+Proof. exact fresh_budget. Qed.
+Print Assumptions C04_fresh_budget.
+
+(* the serving side over whole histories: from the first frame (a request as the header decoder can produce it) through any
+   sequence of frames, application answers and time-outs — raising handlers included — a server transaction that is still
+   in the table is armed and in a state that has a time-out handler (s_inv); one that left it is COMPLETED/ABORTED without
+   a timer (s_done) *)
+Theorem C04_server_history_no_residue : forall a s0 ctr now evs, wf_request a -> s_state s0 = IDLE -> 0 < s_app_to s0 -> 0 < s_seg_to s0 ->
+  let r := s_life a s0 ctr now evs in (snd r = true -> s_inv (fst r)) /\ (snd r = false -> s_done (fst r)).
+Proof. exact s_life_inv. Qed.
+Print Assumptions C04_server_history_no_residue.
+
+Theorem C04_server_history_invariant : forall evs s ctr, s_inv s ->
+  let r := s_after evs s ctr in (snd r = true -> s_inv (fst r)) /\ (snd r = false -> s_done (fst r)).
+Proof. exact s_history_inv. Qed.
+Print Assumptions C04_server_history_invariant.
+
 (* the serving side keeps no residue either: for every frame in every state, for the application's answer and for every
    time-out, a ServerSSM is in the table iff it is not COMPLETED/ABORTED, a removed one holds no timer, and one that stays
    has its timer armed whenever the handler did not raise (for a frame: provided it was armed before, or the transaction is new) *)
@@ -69,6 +106,37 @@ Print Assumptions C04_server_answer_no_residue.
 Theorem C04_server_timeout_no_residue : forall st, pre_s st -> post_s st (s_process_task st) True.
 Proof. exact s_timeouts_post. Qed.
 Print Assumptions C04_server_timeout_no_residue.
+
+(* the IOCB layer (IOController / IOQController / SieveQueue / ApplicationIOController, model Bac.Iocb): over ANY history of
+   submissions (also several to one address, also refused below), confirmations from below, client aborts and batches of
+   deferred functions, every IOCB's callback has fired exactly once if it is COMPLETED/ABORTED and not at all otherwise *)
+Theorem C04_iocb_once : forall ops i b, Iocb.lookup i (Iocb.w_io (Iocb.run_world ops)) = Some b -> IocbFacts.inv_io b.
+Proof. exact IocbFacts.iocb_once. Qed.
+Print Assumptions C04_iocb_once.
+
+(* complete_io / abort_io are idempotent, and more: a finished IOCB is left exactly as it is by every later operation *)
+Theorem C04_iocb_finished_untouched : forall ops w i b, Iocb.lookup i (Iocb.w_io w) = Some b -> Iocb.terminal_io b = true ->
+  Iocb.lookup i (Iocb.w_io (fold_left (fun w o => Iocb.do_op o w) ops w)) = Some b.
+Proof. exact IocbFacts.iocb_finished_untouched. Qed.
+Print Assumptions C04_iocb_finished_untouched.
+
+(* the per-address queue advances: the deferred _trigger of an idle queue starts its first waiting IOCB (hands its request down) *)
+Theorem C04_iocb_queue_advances : forall a g w q i r b,
+  Iocb.lookup a (Iocb.w_qs w) = Some q -> Iocb.q_gen q = g -> Iocb.q_state q = 0 -> Iocb.q_queue q = i :: r ->
+  Iocb.lookup i (Iocb.w_io w) = Some b -> Iocb.i_state b = Iocb.IO_PENDING -> Iocb.i_fail b = false ->
+  let w' := Iocb.trigger a g w in
+  Iocb.lookup a (Iocb.w_qs w') = Some (Iocb.mkSq g 1 (Some i) r) /\
+  Iocb.lookup i (Iocb.w_io w') = Some (Iocb.mkIo Iocb.IO_ACTIVE (Iocb.i_cb b) false (Iocb.i_addr b)) /\
+  Iocb.w_ev w' = [20; i] :: Iocb.w_ev w.
+Proof. exact IocbFacts.trigger_advances. Qed.
+Print Assumptions C04_iocb_queue_advances.
+
+(* queue_by_address cleanup: the confirmation of the only request of an address removes that address's queue *)
+Theorem C04_iocb_queue_cleanup : forall a ok w q i,
+  Iocb.lookup a (Iocb.w_qs w) = Some q -> Iocb.q_active q = Some i -> Iocb.q_queue q = [] ->
+  Iocb.lookup a (Iocb.w_qs (Iocb.confirm a ok w)) = None.
+Proof. exact IocbFacts.confirm_cleanup. Qed.
+Print Assumptions C04_iocb_queue_cleanup.
 
 (* the handlers can raise: a retransmitted ConfirmedRequest that meets a server sending a segmented response *)
 Theorem C04_no_exn_refuted : exists s a, s_state s = SEGMENTED_RESPONSE /\ a_type a = 0 /\
@@ -92,6 +160,22 @@ Example C04_ready_example : c_ready fresh_client.
 Proof. vm_compute. repeat split. Qed.
 Example C04_server_pre_example : pre_s (mkH fresh_server [] 0 0 true) /\ pre_s (mkH busy_server [] 0 0 true).
 Proof. vm_compute. repeat split; discriminate. Qed.
+Example C04_valid_run_example :
+  let s1 := h_s (fst (c_indication (mk_creq false false false (-1) (-1) (-1) (-1) 1 12 [1; 2; 3]) (mkH fresh_client [] 0 0 true))) in
+  valid_run [(3000, Timeout); (4000, Rx (mk_sack 1 12))] s1 1 0 /\ cnt_ok s1 /\ c_ready s1.
+Proof.
+  cbv zeta. split; [|split].
+  - cbn [valid_run]. split; [lia|]. split; [exists 3000, 0; vm_compute; repeat split; congruence|]. split; [vm_compute; reflexivity|].
+    vm_compute. split; [discriminate|]. split; [exists 6000, 1; repeat split; discriminate|]. repeat split.
+  - vm_compute. repeat split; discriminate.
+  - vm_compute. repeat split.
+Qed.
+Example C04_wf_request_example : wf_request (mk_creq false false true (-1) (-1) 0 9 5 12 [1]) /\ s_state fresh_server = IDLE.
+Proof. vm_compute. repeat split; discriminate. Qed.
+Example C04_iocb_example :
+  Iocb.run_ops 2 [Iocb.OSubmit 0 10 false; Iocb.OSubmit 1 10 false; Iocb.OConfirm 10 true; Iocb.ORun; Iocb.OConfirm 10 false]
+  = [10; 0; 20; 0; 10; 0; 10; 1; 21; 0; 3; 10; 3; 20; 1; 10; 1; 21; 1; 4; 30; 3; 1; 4; 1; 31; 0; 32; 1].
+Proof. vm_compute. reflexivity. Qed.
 Example C04_budget_example : cnt_ok fresh_client /\ budget fresh_client = 19.
 Proof. vm_compute. repeat split; discriminate. Qed.
 Example C04_life_example :
